@@ -8,7 +8,7 @@
    authorization policy. A frame is what the reader delivers: optional transaction id, destination,
    PDU bytes; frame_ok says: PDU bytes are bytes, and a TCP frame carries a transaction id. *)
 From Coq Require Import NArith Arith List String.
-From Rodbus Require Import Base.Outcome Base.ServerTypes Model.Server Model.ServerExec Spec.Modbus
+From Rodbus Require Import Base.Outcome Base.ServerTypes Model.Server Model.ServerRender Model.ServerExec Spec.Modbus
   Proofs.ServerParse Proofs.ServerProofs Proofs.ServerProps Proofs.ServerTheorems.
 Import ListNotations.
 Local Open Scope N_scope.
